@@ -1165,6 +1165,15 @@ func checkC03(line string, dist map[string]int) (detail, sig, class string) {
 			return "", "", ""
 		}
 		shown = fmt.Sprintf("source %q; ", clip(src))
+	case "SX": // explicit source (hex): used to replay cases of the correspondence suites
+		src := unhx(strings.TrimSpace(p[1]))
+		var errs []parser.ParserError
+		prog, errs = parseDefault(src)
+		if len(errs) > 0 {
+			dist[p[0]+" rejected"]++
+			return "", "", ""
+		}
+		shown = fmt.Sprintf("source %q; ", clip(src))
 	default:
 		return "bad input kind", "", ""
 	}
